@@ -34,7 +34,10 @@ pub(crate) fn apply_keystream(key: [u8; KEY_BYTES], buffer: &mut [u8]) {
 #[must_use]
 pub(crate) fn encrypt_with_random_key(buffer: &mut [u8]) -> [u8; KEY_BYTES] {
     let mut key = [0; KEY_BYTES];
+    #[cfg(not(feature = "verif-hooks"))]
     rand::rng().fill_bytes(&mut key);
+    #[cfg(feature = "verif-hooks")]
+    crate::verif::rng().fill_bytes(&mut key);
     apply_keystream(key, buffer);
     key
 }
